@@ -82,7 +82,7 @@ MCases == { c \in [auth : AuthKinds, port : {443, 8443}, sni : SniKinds, origin 
              /\ (c.origin = "proxyname" => c.prior # "none")
              /\ (c.form # "origin" => ~c.excluded /\ c.xfp = "absent" /\ c.sni # "other" /\ c.port = 443)
              /\ (c.auth \in {"ipv4", "ipv6"} => c.sni = "absent")        \* clients send no SNI for IP literals
-             /\ (c.excluded => c.sni # "other" /\ c.xfp = "absent" /\ c.auth # "dnsUpper")
+             /\ (c.excluded => c.sni # "other" /\ c.xfp = "absent")      \* an excluded name is excluded in any spelling of its case
              /\ (c.sni = "other" => c.origin = "valid" /\ c.xfp = "absent") }
 MExpect(c) == [ intercepted |-> ~c.excluded,
                 leafFor     |-> IF c.sni = "other" THEN "sni" ELSE "authority",
